@@ -1,7 +1,7 @@
 (* Completeness of the key-lookup proof builder: the proof built for any key
    verifies against the tree's root and determines the key. *)
 From Verif Require Import Lib.Base Mkvs.Trie Mkvs.BitsProofs Mkvs.AlistProofs Mkvs.TrieProofs
-  Mkvs.HashProofs MkvsProof.Model MkvsProof.Sound.
+  Mkvs.HashProofs Gen.ProofConsts MkvsProof.Model MkvsProof.Sound.
 
 Section Complete.
   Variable H : bytes -> bytes.
@@ -118,32 +118,32 @@ Section Complete.
   Lemma parses_hent t : parses 1 [hent H t] (ph t).
   Proof.
     intros f depth rest Hf Hd. destruct f as [|f]; [lia|]. cbn [app vp].
-    destruct (N.ltb_spec MAX_PROOF_DEPTH depth) as [L|_]; [unfold MAX_PROOF_DEPTH in L; lia|].
+    destruct (N.ltb_spec MAX_PROOF_DEPTH depth) as [L|_]; [unfold MAX_PROOF_DEPTH, max_proof_depth in L; lia|].
     destruct t; cbn [hent ph]; try reflexivity;
       rewrite (root_hash_len H HASH_SIZE Hlen), Nat.eqb_refl; reflexivity.
   Qed.
   Lemma parses_hent_lf lf : parses 1 [hent_lf H lf] (ph_lf lf).
   Proof.
     intros f depth rest Hf Hd. destruct f as [|f]; [lia|]. cbn [app vp].
-    destruct (N.ltb_spec MAX_PROOF_DEPTH depth) as [L|_]; [unfold MAX_PROOF_DEPTH in L; lia|].
+    destruct (N.ltb_spec MAX_PROOF_DEPTH depth) as [L|_]; [unfold MAX_PROOF_DEPTH, max_proof_depth in L; lia|].
     destruct lf as [[k0 v0]|]; cbn [hent_lf ph_lf]; try reflexivity.
     cbn [eval_hexpr leaf_hexpr]. rewrite Hlen, Nat.eqb_refl. reflexivity.
   Qed.
   Lemma parses_full_lf lf : parses 1 [full_lf lf] (olf_ptree lf).
   Proof.
     intros f depth rest Hf Hd. destruct f as [|f]; [lia|]. cbn [app vp].
-    destruct (N.ltb_spec MAX_PROOF_DEPTH depth) as [L|_]; [unfold MAX_PROOF_DEPTH in L; lia|].
+    destruct (N.ltb_spec MAX_PROOF_DEPTH depth) as [L|_]; [unfold MAX_PROOF_DEPTH, max_proof_depth in L; lia|].
     destruct lf as [[k0 v0]|]; reflexivity.
   Qed.
   Lemma parses_nil : parses 1 [ENil] PNil.
   Proof.
     intros f depth rest Hf Hd. destruct f as [|f]; [lia|]. cbn [app vp].
-    destruct (N.ltb_spec MAX_PROOF_DEPTH depth) as [L|_]; [unfold MAX_PROOF_DEPTH in L; lia|]. reflexivity.
+    destruct (N.ltb_spec MAX_PROOF_DEPTH depth) as [L|_]; [unfold MAX_PROOF_DEPTH, max_proof_depth in L; lia|]. reflexivity.
   Qed.
   Lemma parses_leaf k0 v0 : parses 1 [EFull (NLeaf k0 v0)] (PLeaf k0 v0).
   Proof.
     intros f depth rest Hf Hd. destruct f as [|f]; [lia|]. cbn [app vp].
-    destruct (N.ltb_spec MAX_PROOF_DEPTH depth) as [L|_]; [unfold MAX_PROOF_DEPTH in L; lia|]. reflexivity.
+    destruct (N.ltb_spec MAX_PROOF_DEPTH depth) as [L|_]; [unfold MAX_PROOF_DEPTH, max_proof_depth in L; lia|]. reflexivity.
   Qed.
 
   (* an internal node: in version 0 the leaf slot is the embedded leaf, in
@@ -156,7 +156,7 @@ Section Complete.
   Proof.
     intros Hn EL PA PB f depth rest Hf Hd. destruct f as [|f]; [lia|].
     unfold self_entry, v1, lfslot, pself. cbn [app vp].
-    destruct (N.ltb_spec MAX_PROOF_DEPTH depth) as [Ld|_]; [unfold MAX_PROOF_DEPTH in Ld; lia|].
+    destruct (N.ltb_spec MAX_PROOF_DEPTH depth) as [Ld|_]; [unfold MAX_PROOF_DEPTH, max_proof_depth in Ld; lia|].
     destruct (ver =? 0) eqn:V.
     - cbn [app]. rewrite <- app_assoc. rewrite PA by lia. rewrite PB by lia. reflexivity.
     - cbn [app]. rewrite <- app_assoc.
